@@ -111,13 +111,13 @@ impl Call {
 }
 
 #[derive(Clone, PartialEq, Debug)]
-struct Obs { ab: Vec<i128>, sb: Vec<i128>, sup: i128, ta: i128, aal: Vec<i128>, sal: Vec<i128> }
+struct Obs { ab: Vec<i128>, sb: Vec<i128>, sup: i128, ta: i128, aal: Vec<i128>, sal: Vec<i128>, dec: i128, asset: i128 }
 impl Obs {
     fn coq(&self) -> String {
         let l = |v: &Vec<i128>| list(&v.iter().map(|x| z(*x)).collect::<Vec<_>>());
         let nu = self.ab.len().max(1);
         let ll = |v: &Vec<i128>| list(&v.chunks(nu).map(|r| list(&r.iter().map(|x| z(*x)).collect::<Vec<_>>())).collect::<Vec<_>>());
-        format!("(Build_obs {} {} {} {} {} {})", l(&self.ab), l(&self.sb), z(self.sup), z(self.ta), ll(&self.aal), ll(&self.sal))
+        format!("(Build_obs {} {} {} {} {} {} {} {})", l(&self.ab), l(&self.sb), z(self.sup), z(self.ta), ll(&self.aal), ll(&self.sal), z(self.dec), z(self.asset))
     }
 }
 
@@ -130,6 +130,8 @@ struct World {
 
 fn rz(o: Option<i128>) -> String { match o { Some(v) => format!("(Ok {})", z(v)), None => "Fail".into() } }
 
+/// host configuration of the next World: min_temp_entry_ttl (1 as C07 prescribes, or 16 = the network default)
+static MIN_TEMP: std::sync::atomic::AtomicU32 = std::sync::atomic::AtomicU32::new(1);
 static QUIET: std::sync::atomic::AtomicBool = std::sync::atomic::AtomicBool::new(false);
 const MAX_OFF: u32 = stellar_tokens::vault::MAX_DECIMALS_OFFSET;
 
@@ -144,14 +146,17 @@ impl World {
         let e = Env::default();
         e.cost_estimate().budget().reset_unlimited();
         e.cost_estimate().disable_resource_limits();
-        e.ledger().with_mut(|l| { l.sequence_number = now0; l.min_temp_entry_ttl = 1; l.min_persistent_entry_ttl = 1_000_000; l.max_entry_ttl = max_ttl; });
+        let min_temp = MIN_TEMP.load(std::sync::atomic::Ordering::SeqCst);
+        // persistent entries and the contract instances get the maximal TTL when created: state the library keeps
+        // in persistent()/instance() storage must survive the long ledger gaps of the scenarios
+        e.ledger().with_mut(|l| { l.sequence_number = now0; l.min_temp_entry_ttl = min_temp; l.min_persistent_entry_ttl = max_ttl; l.max_entry_ttl = max_ttl; });
         let asset = e.register(asset::AssetToken, (adec,));
         let name = SString::from_str(&e, "Vault"); let sym = SString::from_str(&e, "VLT");
         let e2 = e.clone(); let asset2 = asset.clone();
         QUIET.store(true, std::sync::atomic::Ordering::SeqCst);
         let reg = std::panic::catch_unwind(std::panic::AssertUnwindSafe(move || e2.register(vaultc::ExampleContract, (name, sym, asset2, off))));
         QUIET.store(false, std::sync::atomic::Ordering::SeqCst);
-        let empty = Obs { ab: vec![0; nuni], sb: vec![0; nuni], sup: 0, ta: 0, aal: vec![0; nuni * nuni], sal: vec![0; nuni * nuni] };
+        let empty = Obs { ab: vec![0; nuni], sb: vec![0; nuni], sup: 0, ta: 0, aal: vec![0; nuni * nuni], sal: vec![0; nuni * nuni], dec: 0, asset: 1 };
         let vault = match reg { Ok(v) => v, Err(_) => return Err(header_coq(off, adec, max_ttl, nuni, now0, None, &empty)) };
         let mut a = vec![vault.clone()];
         for _ in 1..nuni { a.push(Address::generate(&e)); }
@@ -173,16 +178,18 @@ impl World {
 
     fn observe(&self) -> Obs {
         let e = &self.e;
-        let mut o = Obs { ab: vec![], sb: vec![], sup: 0, ta: 0, aal: vec![], sal: vec![] };
+        let mut o = Obs { ab: vec![], sb: vec![], sup: 0, ta: 0, aal: vec![], sal: vec![], dec: 0, asset: 0 };
         for i in 0..self.n {
-            o.ab.push(self.geti(&self.asset, "balance", soroban_sdk::vec![e, self.av(i)]).expect("asset balance"));
-            o.sb.push(self.geti(&self.vault, "balance", soroban_sdk::vec![e, self.av(i)]).expect("share balance"));
+            o.ab.push(self.geti(&self.asset, "balance", soroban_sdk::vec![e, self.av(i)]).unwrap_or(-1));
+            o.sb.push(self.geti(&self.vault, "balance", soroban_sdk::vec![e, self.av(i)]).unwrap_or(-1));
         }
-        o.sup = self.geti(&self.vault, "total_supply", SVec::new(e)).expect("total_supply");
-        o.ta = self.geti(&self.vault, "total_assets", SVec::new(e)).expect("total_assets");
+        o.sup = self.geti(&self.vault, "total_supply", SVec::new(e)).unwrap_or(-1);
+        o.ta = self.geti(&self.vault, "total_assets", SVec::new(e)).unwrap_or(-1);
+        o.dec = self.get::<u32>(&self.vault, "decimals", SVec::new(e)).map(|d| d as i128).unwrap_or(-1);
+        o.asset = match self.get::<Address>(&self.vault, "query_asset", SVec::new(e)) { Some(a) => if a == self.asset { 1 } else { 0 }, None => -1 };
         for i in 0..self.n { for j in 0..self.n {
-            o.aal.push(self.geti(&self.asset, "allowance", soroban_sdk::vec![e, self.av(i), self.av(j)]).expect("asset allowance"));
-            o.sal.push(self.geti(&self.vault, "allowance", soroban_sdk::vec![e, self.av(i), self.av(j)]).expect("share allowance"));
+            o.aal.push(self.geti(&self.asset, "allowance", soroban_sdk::vec![e, self.av(i), self.av(j)]).unwrap_or(-1));
+            o.sal.push(self.geti(&self.vault, "allowance", soroban_sdk::vec![e, self.av(i), self.av(j)]).unwrap_or(-1));
         } }
         o
     }
@@ -344,7 +351,7 @@ impl<'a> Run<'a> {
         let conv = |x: i128, to_shares: bool| -> Option<(bool, bool)> {
             // (intermediate product exceeds i128, division leaves a remainder)
             let (num, den) = if to_shares { (sp?, a1?) } else { (a1?, sp?) };
-            if x <= 0 { return None; }
+            if x <= 0 || den == 0 { return None; }
             match x.checked_mul(num) { None => Some((true, true)), Some(pr) => Some((false, pr % den != 0)) }
         };
         let opinfo = match &c {
@@ -560,6 +567,47 @@ fn scenarios(out: &mut Out) {
     }
 }
 
+/// S6: everything the vault stores (share balances, supply, asset address, decimals offset, the asset token's
+/// balances, allowances inside their live_until) must survive long ledger gaps during which nobody touches it.
+/// Each gap is ONE Advance call, so the observation right after it is the first read of every entry.
+fn long_gaps(out: &mut Out, thorough: bool) {
+    let gaps: [u32; 6] = [20, 100, 17_281, 20_000, 600_000, 4_000_000];
+    let mut cfgs: Vec<(u32, u32, u32)> = vec![(1, 6_312_000, 0), (16, 6_312_000, 10), (16, 1_100_000, 3), (1, 1_100_000, 6)];
+    if thorough { cfgs.extend_from_slice(&[(1, 6_312_000, 10), (16, 6_312_000, 0), (1, 3_110_400, 1), (16, 3_110_400, 5), (16, 600_000, 2)]); }
+    for (min_temp, max_ttl, off) in cfgs {
+        MIN_TEMP.store(min_temp, std::sync::atomic::Ordering::SeqCst);
+        let w = mk(out, off, 7, max_ttl, 100);
+        MIN_TEMP.store(1, std::sync::atomic::Ordering::SeqCst);
+        let Some(w) = w else { continue };
+        let mut r = Run { w, items: vec![], out };
+        let p = pow10(off);
+        r.go(Call::AMint(1, 1_000_000)); r.go(Call::AMint(2, 50_000)); r.go(Call::AMint(4, 9_999));
+        r.go(Call::Deposit(100_003, 1, 1, 1, full(1)));
+        r.go(Call::ATransfer(4, 0, 777, full(4)));
+        r.go(Call::MintS(31 * p + 7, 3, 2, 2, full(2)));
+        let far = (100u64 + max_ttl as u64 - 1).min(u32::MAX as u64) as u32;      // max_live_until at ledger 100
+        r.go(Call::AApprove(1, 2, 5_000, far, full(1)));                           // lives through (almost) all gaps
+        r.go(Call::AApprove(2, 1, 77, 100 + 50, full(2)));                         // expires inside the third gap
+        r.go(Call::SApprove(3, 2, 20 * p, 100 + 20 + 100 + 17_281, full(3)));      // live_until = the ledger reached by the third gap
+        r.go(Call::SApprove(1, 4, 5 * p, far, full(1)));
+        for g in gaps {
+            r.go(Call::Advance(g));
+            r.out.label("advance/long-gap");
+            r.go(Call::Query(Q::PrevDeposit(1_001))); r.go(Call::Query(Q::PrevRedeem(7 * p + 1)));
+            r.go(Call::Query(Q::MaxWithdraw(1))); r.go(Call::Query(Q::MaxRedeem(3))); r.go(Call::Query(Q::PrevMint(3 * p + 1)));
+            r.go(Call::Deposit(10, 3, 1, 2, full(2)));                             // asset allowance 1 -> 2
+            r.go(Call::Redeem(p + 1, 4, 3, 2, full(2)));                           // share allowance 3 -> 2 (live up to the third gap)
+            r.go(Call::Deposit(3, 1, 2, 1, full(1)));                              // asset allowance 2 -> 1 (expired after the third gap)
+            r.go(Call::STransferFrom(4, 1, 4, 1, full(4)));                        // share allowance 1 -> 4
+        }
+        let s1 = r.w.obs.sb[1];
+        r.go(Call::Redeem(s1, 1, 1, 1, full(1)));
+        let s3 = r.w.obs.sb[3];
+        r.go(Call::Redeem(s3, 3, 3, 3, full(3)));
+        r.finish(&format!("S6-long-gaps-mintemp{}-maxttl{}-off{}", min_temp, max_ttl, off));
+    }
+}
+
 /// exhaustive small scope: every amount 0..=11 through all six conversions on small skewed vault states
 fn grids(out: &mut Out, rng: &mut Rng, thorough: bool) {
     let dons = [0i128, 1, 2, 3, 7]; let deps = [0i128, 1, 2, 5, 9];
@@ -646,10 +694,14 @@ fn pick_auth0(rng: &mut Rng, signer: usize, others: &[usize], nested: bool) -> A
 fn random_trace(out: &mut Out, rng: &mut Rng, idx: usize, len: usize) {
     let mode = match rng.below(10) { 0..=3 => Mode::Small, 4..=5 => Mode::Mid, 6..=7 => Mode::Big, _ => Mode::Skewed };
     let off = match rng.below(8) { 0 | 1 => 0, 2 => MAX_OFF, _ => rng.below(MAX_OFF as u64 + 1) as u32 };
-    let max_ttl = *rng.pick(&[6_312_000u32, 3_110_400]);
+    let max_ttl = *rng.pick(&[6_312_000u32, 3_110_400, 1_100_000]);
     let now0 = rng.range(1, 5000) as u32;
     let adec = *rng.pick(&[0u32, 7, 18]);
-    let Some(w) = mk(out, off, adec, max_ttl, now0) else { return };
+    let min_temp = if rng.chance(1, 2) { 1 } else { 16 };
+    MIN_TEMP.store(min_temp, std::sync::atomic::Ordering::SeqCst);
+    let w = mk(out, off, adec, max_ttl, now0);
+    MIN_TEMP.store(1, std::sync::atomic::Ordering::SeqCst);
+    let Some(w) = w else { return };
     let mut r = Run { w, items: vec![], out };
     let user = |rng: &mut Rng| -> usize { rng.range(1, 4) as usize };
     let anyaddr = |rng: &mut Rng| -> usize { if rng.chance(1, 12) { 0 } else { rng.range(1, 4) as usize } };
@@ -731,7 +783,11 @@ fn random_trace(out: &mut Out, rng: &mut Rng, idx: usize, len: usize) {
             if rng.chance(2, 3) { let au = pick_auth(rng, from, &[to], false); r.go(Call::STransfer(from, to, x, au)); }
             else { let sp = user(rng); let rel = [o.sb[from], o.sal[from * 5 + sp]]; let x = pick_amount(rng, mode, &rel); let au = pick_auth(rng, sp, &[from], false); r.go(Call::STransferFrom(sp, from, to, x, au)); }
         } else if d < 88 {
-            r.go(Call::Advance(match rng.below(4) { 0 => 0, 1 => 1, _ => rng.range(1, 200) as u32 }));
+            // short steps, and long gaps in ONE call (nobody reads anything in between)
+            let k = match rng.below(8) { 0 => 0, 1 => 1, 2 | 3 | 4 => rng.range(1, 200) as u32,
+                                         _ => *rng.pick(&[20u32, 100, 17_281, 20_000, 600_000, 4_000_000, 17_280 * 31, 6_400_000]) };
+            if k >= 17_281 { r.out.label("advance/long-gap"); }
+            r.go(Call::Advance(k));
         } else {
             // queries on arbitrary amounts
             let rel = [o.ta, o.sup, o.ta.saturating_add(1), o.sup.saturating_add(pow10(off))];
@@ -742,7 +798,7 @@ fn random_trace(out: &mut Out, rng: &mut Rng, idx: usize, len: usize) {
             r.go(Call::Query(q));
         }
     }
-    r.finish(&format!("random-{}-{}-off{}", idx, match mode { Mode::Small => "small", Mode::Mid => "mid", Mode::Big => "big", Mode::Skewed => "skewed" }, off));
+    r.finish(&format!("random-{}-mt{}-{}-off{}", idx, min_temp, match mode { Mode::Small => "small", Mode::Mid => "mid", Mode::Big => "big", Mode::Skewed => "skewed" }, off));
 }
 
 fn main() {
@@ -754,6 +810,7 @@ fn main() {
     scenarios(&mut out);
     ctor_cases(&mut out, &mut rng);
     grids(&mut out, &mut rng, thorough);
+    long_gaps(&mut out, thorough);
     let ntr = (if thorough { 1500 } else { 110 }) * out.cfg.scale as usize;
     for i in 0..ntr {
         let len = if thorough { rng.range(20, 90) as usize } else { rng.range(15, 45) as usize };
